@@ -472,6 +472,26 @@ theorem C08_weights_normalised {K : Type} [Field K] [LinearOrder K] (w : List K)
 
 example : wNormalize (some [(2 : ℚ)]) 3 = .ok (some [2, 2, 2]) ∧ wNormalize (some [(2 : ℚ), 1]) 3 = .error .type := by decide
 
+/-- **closed-form branch on block arrays** (round 5): with the default Identity on a block shape or a `Diagonal` whose diagonal
+    is a block array, `SquaredL2Loss.prox` on block arguments `v`, `y` of the same block shape returns a block array of that
+    shape whose concatenation is the entrywise closed form `sqL2DiagProx` of the concatenated data — so the minimisation
+    theorems `C08_sqL2_diag_minimises` (real) / `C08_sqL2_diag_minimises_complex` apply to it as they stand -/
+theorem C08_sqL2_block_diag {α : Type} [Add α] [Sub α] [Mul α] [Div α] [Neg α] [Zero α] [One α] [LT α] [DecidableLT α] [HasSqrt α]
+    (En : Env α) (ys vs : List (List α)) (A : OpK α) (w : Option (List α)) (s lam : α) (p : Arg α)
+    (hA : A = .ident ∨ ∃ d, A = .diag d) (h : prox En (.sqL2 (.blk ys) A w s) (.blk vs) lam = .ok p) :
+    ∃ a, diagOf En.cplx (nEntries En.cplx vs.flatten) A = some a ∧ a.length = vs.flatten.length ∧
+      vs.map List.length = ys.map List.length ∧
+      ((sqL2DiagProx En.cplx s lam w a ys.flatten vs.flatten).length = vs.flatten.length →
+        p.flat = sqL2DiagProx En.cplx s lam w a ys.flatten vs.flatten ∧
+        ∃ ps, p = .blk ps ∧ ps.map List.length = vs.map List.length) := by
+  obtain ⟨a, h1, h2, h3, _, h5⟩ := sqL2_block_prox En ys vs A w s lam p hA h
+  exact ⟨a, h1, h2, h3, h5⟩
+
+-- blocks [4],[7] with block diagonal [1],[3], weights [2,0], y = [1],[5], scale 1/2, lam 1: the flat closed form [2, 7], split again
+example : prox exEnv (.sqL2 (.blk [[1], [5]]) (.diag [1, 3]) (some [2, 0]) (1 / 2)) (.blk [[4], [7]]) 1 = .ok (.blk [[2], [7]]) := by
+  simp [prox, exEnv, diagOf, splitLike]
+  norm_num [sqL2DiagProx, emul, econj, rmulL, edivR, sqmags]
+
 -- `2 * Separable([Loss(y, f=leaf0, scale=3), leaf0])`: both occurrences of leaf 0 receive the dictionary (here the token 7)
 example : kwPlan exEnv exTree (7 : Nat) = [(.inl 0, 7), (.inl 0, 7)] := by decide
 
